@@ -262,7 +262,9 @@ class Parser:
                 if self.atop(':'): self.next(); self.skip_type()
                 init = None
                 if self.atop('='): self.next(); init = self.expr()
-                if self.atid('else'): raise Unsupported("let-else")
+                if self.atid('else'):
+                    self.next(); eb = self.block(); self.eatop(';')
+                    stmts.append(('letelse', pat, init, eb)); continue
                 self.eatop(';'); stmts.append(('let', pat, mut, init)); continue
             e = self.expr(stmt=True)
             if self.at('op') and self.peek()[1] in ('=', '+=', '-=', '*=', '/='):
